@@ -480,7 +480,8 @@ impl<'source> CommentBlocks<'source> {
     /// line: the printer aligns them with the opener wherever it lands.
     fn opening_indentation(&self, start: usize) -> usize {
         let line_start = self.source[..start].rfind('\n').map_or(0, |newline| newline + 1);
-        start - line_start
+        // Measured as the printer measures the column it aligns the lines with.
+        unicode_width::UnicodeWidthStr::width(&self.source[line_start..start])
     }
 
     fn indentation(line: &str) -> usize {
